@@ -1530,4 +1530,422 @@ theorem mergeSpans_freeIds_eq {f : FL} (hinv : FLInv f) {ids : List Nat}
   · intro q
     rw [h3 q, mem_mergeSorted, mem_sortNat]
 
+/-! ### Release -/
+
+/-- `g` is reachable from `f` by moving pending ids to the free set; every moved id has a
+    provenance `(t, a)` in `f.pending` satisfying `P t a`. -/
+def Rel (P : Txid → Txid → Prop) (f g : FL) : Prop :=
+  FLInv g ∧
+  (∀ q, (q ∈ g.freeIds ∨ q ∈ g.pendingIds) ↔ (q ∈ f.freeIds ∨ q ∈ f.pendingIds)) ∧
+  (∀ q ∈ g.freeIds, q ∈ f.freeIds ∨ ∃ t txp a, (t, txp) ∈ f.pending ∧ (q, a) ∈ txp.ids ∧ P t a) ∧
+  (∀ t txp', (t, txp') ∈ g.pending → ∃ txp, (t, txp) ∈ f.pending ∧ ∀ x ∈ txp'.ids, x ∈ txp.ids)
+
+theorem Rel.refl {P : Txid → Txid → Prop} {f : FL} (h : FLInv f) : Rel P f f :=
+  ⟨h, fun _ => Iff.rfl, fun _ hq => Or.inl hq, fun _ txp' hp => ⟨txp', hp, fun _ hx => hx⟩⟩
+
+theorem Rel.trans {P : Txid → Txid → Prop} {f g h : FL} (h1 : Rel P f g) (h2 : Rel P g h) : Rel P f h := by
+  obtain ⟨_, a2, a3, a4⟩ := h1
+  obtain ⟨b1, b2, b3, b4⟩ := h2
+  refine ⟨b1, fun q => (b2 q).trans (a2 q), ?_, ?_⟩
+  · intro q hq
+    rcases b3 q hq with hq' | ⟨t, txp', a, hp, hx, hP⟩
+    · exact a3 q hq'
+    · obtain ⟨txp, hp', hsub⟩ := a4 t txp' hp
+      exact Or.inr ⟨t, txp, a, hp', hsub _ hx, hP⟩
+  · intro t txp'' hp
+    obtain ⟨txp', hp', hsub'⟩ := b4 t txp'' hp
+    obtain ⟨txp, hp'', hsub''⟩ := a4 t txp' hp'
+    exact ⟨txp, hp'', fun x hx => hsub'' x (hsub' x hx)⟩
+
+theorem move_rel {P : Txid → Txid → Prop} {f : FL} (hinv : FLInv f)
+    (pending' : List (Txid × TxPending)) (moved : List Pgid)
+    (hperm : f.pendingIds.Perm (moved ++ pidsOf pending'))
+    (hkeys : (pending'.map (·.1)).Nodup)
+    (hprov : ∀ q ∈ moved, ∃ t txp a, (t, txp) ∈ f.pending ∧ (q, a) ∈ txp.ids ∧ P t a)
+    (hsub : ∀ t txp', (t, txp') ∈ pending' → ∃ txp, (t, txp) ∈ f.pending ∧ ∀ x ∈ txp'.ids, x ∈ txp.ids) :
+    Rel P f (({ f with pending := pending' } : FL).mergeSpans moved) := by
+  obtain ⟨h1, h2, h3⟩ := hinv.move pending' moved hperm hkeys
+  refine ⟨h1, ?_, ?_, ?_⟩
+  · intro q
+    rw [h3 q, pendingIds_eq, h2, hperm.mem_iff, List.mem_append]
+    constructor
+    · rintro ((h | h) | h)
+      · exact Or.inl h
+      · exact Or.inr (Or.inl h)
+      · exact Or.inr (Or.inr h)
+    · rintro (h | h | h)
+      · exact Or.inl (Or.inl h)
+      · exact Or.inl (Or.inr h)
+      · exact Or.inr h
+  · intro q hq
+    rcases (h3 q).mp hq with h | h
+    · exact Or.inl h
+    · exact Or.inr (hprov q h)
+  · intro t txp' hp
+    rw [h2] at hp
+    exact hsub t txp' hp
+
+theorem pidsOf_filter_perm (p q : Txid × TxPending → Bool) (hpq : ∀ x, q x = !p x)
+    (l : List (Txid × TxPending)) :
+    (pidsOf l).Perm (pidsOf (l.filter p) ++ pidsOf (l.filter q)) := by
+  rw [List.perm_iff_count]
+  intro a
+  induction l with
+  | nil => simp
+  | cons x xs ih =>
+    simp only [List.count_append] at ih
+    cases hp : p x
+    · have hq : q x = true := by rw [hpq, hp]; rfl
+      simp only [List.filter_cons, hp, hq, if_true, pidsOf_cons, List.count_append]
+      simp at ih ⊢
+      omega
+    · have hq : q x = false := by rw [hpq, hp]; rfl
+      simp only [List.filter_cons, hp, hq, if_true, pidsOf_cons, List.count_append]
+      simp at ih ⊢
+      omega
+
+theorem release_rel {P : Txid → Txid → Prop} {f : FL} (hinv : FLInv f) (txid : Txid)
+    (hP : ∀ t a, t ≤ txid → P t a) : Rel P f (f.release txid) := by
+  unfold FL.release
+  apply move_rel hinv
+  · exact pidsOf_filter_perm _ _ (by intro x; simp only [decide_not]) f.pending
+  · exact (List.Sublist.map _ List.filter_sublist).nodup hinv.pending_keys
+  · intro q hq
+    change q ∈ pidsOf _ at hq
+    obtain ⟨t, txp, a, hp, hx⟩ := mem_pidsOf.mp hq
+    rw [List.mem_filter] at hp
+    exact ⟨t, txp, a, hp.1, hx, hP t a (by simpa using hp.2)⟩
+  · intro t txp' hp
+    rw [List.mem_filter] at hp
+    exact ⟨txp', hp.1, fun _ hx => hx⟩
+
+def rrHit (b e : Txid) (p : Txid × TxPending) : Bool := b ≤ p.1 ∧ p.1 ≤ e ∧ p.2.lastReleaseBegin ≠ b
+def rrSel (b e : Txid) (q : Pgid × Txid) : Bool := b ≤ q.2 ∧ q.2 ≤ e
+
+def rrMoved (b e : Txid) (pending : List (Txid × TxPending)) : List Pgid :=
+  (pending.filter (rrHit b e)).flatMap (fun p => (p.2.ids.filter (rrSel b e)).map (·.1))
+
+def rrPending (b e : Txid) (pending : List (Txid × TxPending)) : List (Txid × TxPending) :=
+  pending.filterMap (fun p =>
+      if rrHit b e p then
+        let rest := p.2.ids.filter (fun q => !rrSel b e q)
+        if rest.isEmpty then none else some (p.1, { ids := rest, lastReleaseBegin := b })
+      else some p)
+
+theorem releaseRange_eq (f : FL) (b e : Txid) (h : ¬ b > e) :
+    f.releaseRange b e =
+      ({ f with pending := rrPending b e f.pending } : FL).mergeSpans (rrMoved b e f.pending) := by
+  unfold FL.releaseRange
+  rw [if_neg h]
+  rfl
+
+theorem rrMoved_cons (b e : Txid) (p : Txid × TxPending) (ps : List (Txid × TxPending)) :
+    rrMoved b e (p :: ps) =
+      (if rrHit b e p then (p.2.ids.filter (rrSel b e)).map (·.1) else []) ++ rrMoved b e ps := by
+  unfold rrMoved
+  by_cases h : rrHit b e p = true
+  · simp [h]
+  · simp [h]
+
+theorem pidsOf_rrPending_cons (b e : Txid) (p : Txid × TxPending) (ps : List (Txid × TxPending)) :
+    pidsOf (rrPending b e (p :: ps)) =
+      (if rrHit b e p then (p.2.ids.filter (fun q => !rrSel b e q)).map (·.1) else p.2.ids.map (·.1))
+        ++ pidsOf (rrPending b e ps) := by
+  unfold rrPending
+  rw [List.filterMap_cons]
+  by_cases h : rrHit b e p = true
+  · simp only [h, if_true]
+    by_cases h2 : (p.2.ids.filter (fun q => !rrSel b e q)).isEmpty = true
+    · simp only [h2, if_true]
+      rw [List.isEmpty_iff.mp h2]; simp
+    · simp only [h2]
+      exact pidsOf_cons _ _
+  · simp only [h]
+    exact pidsOf_cons _ _
+
+theorem rr_perm (b e : Txid) (pending : List (Txid × TxPending)) :
+    (pidsOf pending).Perm (rrMoved b e pending ++ pidsOf (rrPending b e pending)) := by
+  rw [List.perm_iff_count]
+  intro a
+  induction pending with
+  | nil => simp [rrMoved, rrPending]
+  | cons p ps ih =>
+    rw [rrMoved_cons, pidsOf_rrPending_cons, pidsOf_cons]
+    simp only [List.count_append] at ih ⊢
+    by_cases h : rrHit b e p = true
+    · simp only [h, if_true]
+      have := ((List.filter_append_perm (rrSel b e) p.2.ids).map (·.1)).count_eq a
+      simp only [List.map_append, List.count_append] at this
+      omega
+    · simp only [h]
+      simp
+      omega
+
+theorem rr_keys (b e : Txid) (pending : List (Txid × TxPending)) :
+    ((rrPending b e pending).map (·.1)).Sublist (pending.map (·.1)) := by
+  induction pending with
+  | nil => simp [rrPending]
+  | cons p ps ih =>
+    unfold rrPending at ih ⊢
+    rw [List.filterMap_cons]
+    split
+    · rename_i hnone
+      exact ih.trans (by simp)
+    · rename_i x hsome
+      have : x.1 = p.1 := by
+        split at hsome
+        · simp only [] at hsome
+          split at hsome
+          · cases hsome
+          · cases hsome; rfl
+        · cases hsome; rfl
+      simp only [List.map_cons, this]
+      exact ih.cons_cons _
+
+theorem rr_sub (b e : Txid) (pending : List (Txid × TxPending)) :
+    ∀ t txp', (t, txp') ∈ rrPending b e pending →
+      ∃ txp, (t, txp) ∈ pending ∧ ∀ x ∈ txp'.ids, x ∈ txp.ids := by
+  intro t txp' h
+  unfold rrPending at h
+  rw [List.mem_filterMap] at h
+  obtain ⟨p, hp, hsome⟩ := h
+  split at hsome
+  · simp only [] at hsome
+    split at hsome
+    · cases hsome
+    · cases hsome
+      exact ⟨p.2, hp, fun x hx => (List.mem_filter.mp hx).1⟩
+  · cases hsome
+    exact ⟨txp', hp, fun x hx => hx⟩
+
+theorem rr_prov (b e : Txid) (pending : List (Txid × TxPending)) :
+    ∀ q ∈ rrMoved b e pending, ∃ t txp a, (t, txp) ∈ pending ∧ (q, a) ∈ txp.ids ∧
+      b ≤ t ∧ t ≤ e ∧ b ≤ a ∧ a ≤ e := by
+  intro q hq
+  unfold rrMoved at hq
+  rw [List.mem_flatMap] at hq
+  obtain ⟨p, hp, hq⟩ := hq
+  rw [List.mem_filter] at hp
+  rw [List.mem_map] at hq
+  obtain ⟨x, hx, rfl⟩ := hq
+  rw [List.mem_filter] at hx
+  have h1 := hp.2
+  have h2 := hx.2
+  simp only [rrHit, rrSel, decide_eq_true_eq] at h1 h2
+  exact ⟨p.1, p.2, x.2, hp.1, hx.1, h1.1, h1.2.1, h2.1, h2.2⟩
+
+theorem releaseRange_rel {P : Txid → Txid → Prop} {f : FL} (hinv : FLInv f) (b e : Txid)
+    (hP : ∀ t a, b ≤ t → t ≤ e → b ≤ a → a ≤ e → P t a) : Rel P f (f.releaseRange b e) := by
+  by_cases h : b > e
+  · unfold FL.releaseRange
+    rw [if_pos h]
+    exact Rel.refl hinv
+  · rw [releaseRange_eq f b e h]
+    apply move_rel hinv
+    · exact rr_perm b e f.pending
+    · exact (rr_keys b e f.pending).nodup hinv.pending_keys
+    · intro q hq
+      obtain ⟨t, txp, a, h1, h2, h3, h4, h5, h6⟩ := rr_prov b e f.pending q hq
+      exact ⟨t, txp, a, h1, h2, hP t a h3 h4 h5 h6⟩
+    · exact rr_sub b e f.pending
+
+/-! ### `ReleasePendingPages` -/
+
+def rpStep (acc : FL × Txid) (tid : Txid) : FL × Txid :=
+  ((if tid > 0 then acc.1.releaseRange acc.2 (tid - 1) else acc.1), inc64 tid)
+
+def rpTail (l : List Txid) (g : FL) (m : Txid) : FL :=
+  (l.foldl rpStep (g, m)).1.releaseRange (l.foldl rpStep (g, m)).2 maxU64
+
+def rpMin (rs : List Txid) : Txid := match rs with | [] => maxU64 | r :: _ => r
+
+def rpFirst (f : FL) : FL :=
+  if rpMin (sortNat f.readers) > 0
+  then ({ f with readers := sortNat f.readers } : FL).release (rpMin (sortNat f.readers) - 1)
+  else { f with readers := sortNat f.readers }
+
+theorem releasePending_eq (f : FL) :
+    f.releasePending = rpTail (sortNat f.readers) (rpFirst f) (rpMin (sortNat f.readers)) := rfl
+
+theorem rpTail_nil (g : FL) (m : Txid) : rpTail [] g m = g.releaseRange m maxU64 := rfl
+
+theorem rpTail_cons (tid : Txid) (l : List Txid) (g : FL) (m : Txid) :
+    rpTail (tid :: l) g m =
+      rpTail l (if tid > 0 then g.releaseRange m (tid - 1) else g) (inc64 tid) := rfl
+
+theorem rpTail_rel {P : Txid → Txid → Prop} (J : Txid → List Txid → Prop)
+    (hstep : ∀ m tid l, J m (tid :: l) →
+      (tid > 0 → ∀ t a, m ≤ t → t ≤ tid - 1 → m ≤ a → a ≤ tid - 1 → P t a) ∧ J (inc64 tid) l)
+    (hfinal : ∀ m, J m [] → ∀ t a, m ≤ t → t ≤ maxU64 → m ≤ a → a ≤ maxU64 → P t a) :
+    ∀ (l : List Txid) (g : FL) (m : Txid), FLInv g → J m l → Rel P g (rpTail l g m) := by
+  intro l
+  induction l with
+  | nil =>
+    intro g m hinv hJ
+    rw [rpTail_nil]
+    exact releaseRange_rel hinv m maxU64 (hfinal m hJ)
+  | cons tid l ih =>
+    intro g m hinv hJ
+    rw [rpTail_cons]
+    obtain ⟨h1, h2⟩ := hstep m tid l hJ
+    have hrel : Rel P g (if tid > 0 then g.releaseRange m (tid - 1) else g) := by
+      split
+      · rename_i hpos
+        exact releaseRange_rel hinv m (tid - 1) (h1 hpos)
+      · exact Rel.refl hinv
+    exact hrel.trans (ih _ _ hrel.1 h2)
+
+theorem release_pending (f : FL) (txid : Txid) :
+    (f.release txid).pending = f.pending.filter (fun p => ¬ p.1 ≤ txid) := by
+  unfold FL.release
+  exact mergeSpans_pending _ _
+
+theorem FLInv.setReaders {f : FL} (h : FLInv f) (rs : List Txid) : FLInv { f with readers := rs } :=
+  h.congr rfl rfl rfl rfl
+
+theorem Rel.of_setReaders {P : Txid → Txid → Prop} {f g : FL} {rs : List Txid}
+    (h : Rel P { f with readers := rs } g) : Rel P f g := h
+
+theorem rpFirst_rel {P : Txid → Txid → Prop} {f : FL} (hinv : FLInv f)
+    (hP : 0 < rpMin (sortNat f.readers) → ∀ t a, t ≤ rpMin (sortNat f.readers) - 1 → P t a) :
+    Rel P f (rpFirst f) := by
+  unfold rpFirst
+  split
+  · rename_i hpos
+    exact Rel.of_setReaders (release_rel (hinv.setReaders _) _ (hP hpos))
+  · exact Rel.of_setReaders (Rel.refl (hinv.setReaders _))
+
+theorem rpMin_le {l : List Txid} (hs : l.Pairwise (· ≤ ·)) : ∀ r ∈ l, rpMin l ≤ r := by
+  cases l with
+  | nil => intro r hr; cases hr
+  | cons x xs =>
+    intro r hr
+    rw [List.pairwise_cons] at hs
+    simp only [rpMin]
+    rcases List.mem_cons.mp hr with h | h
+    · fomega
+    · exact hs.1 r h
+
+/-- `ReleasePendingPages` with an arbitrary provenance predicate that every range satisfies. -/
+theorem releasePending_rel_true {f : FL} (hinv : FLInv f) :
+    Rel (fun _ _ => True) f f.releasePending := by
+  rw [releasePending_eq]
+  have h1 : Rel (fun _ _ => True) f (rpFirst f) := rpFirst_rel hinv (fun _ _ _ _ => trivial)
+  refine h1.trans (rpTail_rel (fun _ _ => True) ?_ ?_ _ _ _ h1.1 trivial)
+  · intro _ _ _ _; exact ⟨fun _ _ _ _ _ _ _ => trivial, trivial⟩
+  · intro _ _ _ _ _ _ _ _; trivial
+
+theorem releasePending_rel_safe {f : FL} (hinv : FLInv f) (hr : ∀ r ∈ f.readers, r < maxU64) :
+    Rel (fun t a => ∀ r ∈ f.readers, ¬ (a ≤ r ∧ r < t)) f f.releasePending := by
+  rw [releasePending_eq]
+  have hsorted := sortNat_sorted f.readers
+  have hmin := rpMin_le hsorted
+  have h1 : Rel (fun t a => ∀ r ∈ f.readers, ¬ (a ≤ r ∧ r < t)) f (rpFirst f) := by
+    apply rpFirst_rel hinv
+    intro hpos t a ht r hr' hc
+    have := hmin r (mem_sortNat.mpr hr')
+    fomega
+  refine h1.trans (rpTail_rel
+    (fun m l => (∀ r ∈ f.readers, r < m ∨ r ∈ l) ∧ (∀ r ∈ l, m ≤ r + 1 ∧ r < maxU64) ∧ l.Pairwise (· ≤ ·))
+    ?_ ?_ _ _ _ h1.1 ?_)
+  · rintro m tid l ⟨hJ1, hJ2, hJ3⟩
+    rw [List.pairwise_cons] at hJ3
+    have htid := hJ2 tid (by simp)
+    have hinc : inc64 tid = tid + 1 := by
+      unfold inc64; rw [if_neg (by fomega)]
+    refine ⟨?_, ?_, ?_, hJ3.2⟩
+    · intro hpos t a h1 h2 h3 h4 r hr' hc
+      rcases hJ1 r hr' with h | h
+      · fomega
+      · rcases List.mem_cons.mp h with h | h
+        · fomega
+        · have := hJ3.1 r h; fomega
+    · intro r hr'
+      rw [hinc]
+      rcases hJ1 r hr' with h | h
+      · left; fomega
+      · rcases List.mem_cons.mp h with h | h
+        · left; fomega
+        · right; exact h
+    · intro r hr'
+      rw [hinc]
+      have := hJ3.1 r hr'
+      exact ⟨by fomega, (hJ2 r (List.mem_cons_of_mem _ hr')).2⟩
+  · rintro m ⟨hJ1, _, _⟩ t a h1 h2 h3 h4 r hr' hc
+    rcases hJ1 r hr' with h | h
+    · fomega
+    · cases h
+  · refine ⟨fun r hr' => Or.inr (mem_sortNat.mpr hr'), ?_, hsorted⟩
+    intro r hr'
+    have := hmin r hr'
+    exact ⟨by fomega, hr r (mem_sortNat.mp hr')⟩
+
+theorem rpTail_rel_true (l : List Txid) (g : FL) (m : Txid) (hinv : FLInv g) :
+    Rel (fun _ _ => True) g (rpTail l g m) :=
+  rpTail_rel (fun _ _ => True)
+    (fun _ _ _ _ => ⟨fun _ _ _ _ _ _ _ => trivial, trivial⟩)
+    (fun _ _ _ _ _ _ _ _ => trivial) l g m hinv trivial
+
+theorem releasePending_live {f : FL} (hinv : FLInv f) (hnr : f.readers = [])
+    (ht : ∀ p ∈ f.pending, p.1 < maxU64) :
+    (f.releasePending).pending = [] ∧
+    ∀ q, q ∈ (f.releasePending).freeIds ↔ (q ∈ f.freeIds ∨ q ∈ f.pendingIds) := by
+  have hrel := releasePending_rel_true hinv
+  have hfirst : Rel (fun _ _ => True) f (rpFirst f) := rpFirst_rel hinv (fun _ _ _ _ => trivial)
+  have htail := rpTail_rel_true (sortNat f.readers) (rpFirst f) (rpMin (sortNat f.readers)) hfirst.1
+  rw [← releasePending_eq] at htail
+  have hp1 : (rpFirst f).pending = [] := by
+    have hmin : rpMin (sortNat f.readers) = maxU64 := by rw [hnr]; rfl
+    unfold rpFirst
+    split
+    · rw [release_pending, List.filter_eq_nil_iff]
+      intro p hp
+      have := ht p hp
+      simp only [decide_eq_true_eq, Decidable.not_not]
+      fomega
+    · rename_i hneg
+      exact absurd (by rw [hmin]; decide) hneg
+  have hp2 : (f.releasePending).pending = [] := by
+    rw [List.eq_nil_iff_forall_not_mem]
+    intro p hp
+    obtain ⟨txp, h, _⟩ := htail.2.2.2 p.1 p.2 hp
+    rw [hp1] at h
+    cases h
+  refine ⟨hp2, fun q => ?_⟩
+  rw [← hrel.2.1 q, pendingIds_eq, hp2]
+  simp
+
+theorem releasePending_below_min {f : FL} (hinv : FLInv f) (m : Nat)
+    (hm : ∀ r ∈ f.readers, m ≤ r) (hr : f.readers ≠ []) :
+    ∀ p ∈ (f.releasePending).pending, m ≤ p.1 := by
+  have hfirst : Rel (fun _ _ => True) f (rpFirst f) := rpFirst_rel hinv (fun _ _ _ _ => trivial)
+  have htail := rpTail_rel_true (sortNat f.readers) (rpFirst f) (rpMin (sortNat f.readers)) hfirst.1
+  rw [← releasePending_eq] at htail
+  -- the oldest reader is a reader
+  have hmin : rpMin (sortNat f.readers) ∈ f.readers := by
+    cases hs : sortNat f.readers with
+    | nil =>
+      have := length_sortNat f.readers
+      rw [hs] at this
+      exact absurd (List.eq_nil_of_length_eq_zero this.symm) hr
+    | cons x xs =>
+      simp only [rpMin]
+      exact mem_sortNat.mp (hs ▸ List.mem_cons_self)
+  have hmm := hm _ hmin
+  have hp1 : ∀ p ∈ (rpFirst f).pending, m ≤ p.1 := by
+    unfold rpFirst
+    split
+    · rename_i hpos
+      rw [release_pending]
+      intro p hp
+      rw [List.mem_filter] at hp
+      have := hp.2
+      simp only [decide_eq_true_eq] at this
+      fomega
+    · intro p _
+      fomega
+  intro p hp
+  obtain ⟨txp, h, _⟩ := htail.2.2.2 p.1 p.2 hp
+  exact hp1 (p.1, txp) h
+
 end Bolt.FL
